@@ -47,20 +47,22 @@ fn vf_config_check_untouched_iff_ok() {
     let td = crate::core::testing::new_testdir().unwrap();
     let work = td.path();
     let (mut checked, mut bad) = (0u64, 0u64);
-    for pad in [0usize, 12000] {
-        let src = work.join(format!("src{}.json", pad));
-        let src_bytes = b"{\"targets\":[{\"path\":\"lib\"}]}".to_vec();
+    for (pad, src_pad) in [(0usize, 0usize), (12000, 0), (0, 70_000), (500, 300_000)] {
+        let src = work.join(format!("src{}_{}.json", pad, src_pad));
+        // the source may itself be large (C18: sizes far beyond any I/O buffer): padded with insignificant whitespace
+        let mut src_bytes = b"{\"targets\":[{\"path\":\"lib\"}]}".to_vec();
+        src_bytes.extend(std::iter::repeat(b' ').take(src_pad));
         std::fs::write(&src, &src_bytes).unwrap();
-        let gen = work.join(format!("gen{}.json", pad));
+        let gen = work.join(format!("gen{}_{}.json", pad, src_pad));
         let gen_bytes = cfg_json(pad, false, Some((src.to_str().unwrap(), &sha_hex(&src_bytes))));
-        let lock = work.join(format!("gen{}.lock", pad));
+        let lock = work.join(format!("gen{}_{}.lock", pad, src_pad));
         let write_all = |g: &[u8], s: &[u8], l: &str| { std::fs::write(&gen, g).unwrap(); std::fs::write(&src, s).unwrap(); std::fs::write(&lock, format!("{{\"checksum\":\"{}\"}}", l)).unwrap(); };
         let verdict = || -> Result<(), String> { let c = Config::new(&gen).map_err(|e| e.to_string())?; c.check(&gen, work).map_err(|e| e.to_string()) };
         let good_lock = sha_hex(&gen_bytes);
         // untouched
         write_all(&gen_bytes, &src_bytes, &good_lock);
         checked += 1;
-        if let Err(e) = verdict() { bad += 1; println!("VF-FAIL untouched triple (generated file of {} bytes) :: rejected: {} (C17)", gen_bytes.len(), e); }
+        if let Err(e) = verdict() { bad += 1; println!("VF-FAIL untouched triple (generated file of {} bytes, source of {} bytes) :: rejected: {} (C17) (C18)", gen_bytes.len(), src_bytes.len(), e); }
         // edits
         let mut edits: Vec<(String, Vec<u8>, Vec<u8>, String)> = vec![];
         for (name, b) in [("newline appended to the generated file", b"\n".to_vec()), ("space appended to the generated file", b" ".to_vec())] {
@@ -70,6 +72,7 @@ fn vf_config_check_untouched_iff_ok() {
         { let mut g = gen_bytes.clone(); let k = g.len() - 8; g[k] = b'L'; edits.push(("one byte changed near the end of the generated file".to_string(), g, src_bytes.clone(), good_lock.clone())); }
         { let mut g = gen_bytes.clone(); let k = g.len() - 2; g.insert(k, b' '); edits.push(("one space inserted inside the generated file".to_string(), g, src_bytes.clone(), good_lock.clone())); }
         { let mut s = src_bytes.clone(); s.push(b'\n'); edits.push(("newline appended to the source file".to_string(), gen_bytes.clone(), s, good_lock.clone())); }
+        { let mut s = src_bytes.clone(); let k = s.len() - 1; s[k] = if s[k] == b' ' { b'\n' } else { b' ' }; edits.push((format!("last byte of the {}-byte source file changed", src_bytes.len()), gen_bytes.clone(), s, good_lock.clone())); }
         { let mut l = good_lock.clone(); l.replace_range(0..1, if l.starts_with('0') { "1" } else { "0" }); edits.push(("lockfile checksum changed".to_string(), gen_bytes.clone(), src_bytes.clone(), l)); }
         for (name, g, s, l) in edits {
             checked += 1;
